@@ -381,6 +381,10 @@ fn record(src: &str, code: &[u8], desc: Option<&J>, o: &Observed) -> J {
     if let Some(e) = &o.entries_analyze {
         r["entries_analyze"] = json!(e);
     }
+    // small generated programs carry their bytes, so that Cfg.tla can say which storage instructions are dead
+    if code.len() <= 400 && matches!(src, "dead-storage" | "control-flow" | "literal-keys" | "lookalike-storage-free" | "lookalike-as-value") {
+        r["code"] = json!(code);
+    }
     r
 }
 
@@ -526,8 +530,120 @@ fn lookalike_program(rng: &mut StdRng, with_storage: bool) -> Vec<u8> {
     assemble(&items)
 }
 
+/// One SSTORE (and one SLOAD) instruction shared by several call sites on one path, each passing its own literal
+/// key: `PUSH ret; PUSH val; PUSH key; PUSH setter; JUMP`, with `setter: JUMPDEST SSTORE JUMP` (C06: every key counts,
+/// however often the instruction that uses it has already run).
+fn shared_accessor_program(rng: &mut StdRng) -> Vec<u8> {
+    let mut items = Vec::new();
+    let n = rng.gen_range(2..6usize);
+    let (setter, getter) = (100usize, 101usize);
+    let lbl = |label: usize| Item::PushLabel { label, width: 2, high: 0, delta: 0 };
+    for i in 0..n {
+        let key: Vec<u8> = match rng.gen_range(0..4) {
+            0 => vec![rng.gen_range(0..50)],
+            1 => vec![1, 0, 0, 0, 0, 0, 0, 0, rng.gen()],
+            2 => unhex("360894a13ba1a3210667c828492db98dca3e2076cc3735a920a3ca505d382bbc").unwrap(),
+            _ => {
+                let mut k = vec![0u8; 32];
+                rng.fill(&mut k[..]);
+                k
+            }
+        };
+        items.push(lbl(i));
+        if rng.gen_bool(0.7) {
+            // the value: an argument, or a constant
+            if rng.gen_bool(0.5) {
+                items.extend([p1(4), Item::Op(0x35)]);
+            } else {
+                items.push(p1(rng.gen_range(1..200)));
+            }
+            items.extend([Item::Push(key), lbl(setter), Item::Op(0x56)]);
+        } else {
+            items.extend([Item::Push(key), lbl(getter), Item::Op(0x56)]);
+        }
+        items.push(Item::Label(i));
+    }
+    items.push(Item::Op(0x00));
+    items.extend([Item::Label(setter), Item::Op(0x55), Item::Op(0x56)]);
+    items.extend([Item::Label(getter), Item::Op(0x54), Item::Op(0x50), Item::Op(0x56)]);
+    assemble(&items)
+}
+
+/// Programs whose storage instructions are all dead: the live part only hashes and masks (leaving look-alike slot
+/// hashes on the stack) and then ends - by a halting instruction, an unassigned byte, a jump whose constant target
+/// is no jump destination (out of range, inside the code but not a JUMPDEST, a JUMPDEST offset plus 2^32 / 2^64,
+/// a 0x5b inside the data of a trailing PUSH that the end of the code cuts short) or a jump over the dead part.
+/// The EVM never executes the SLOAD / SSTORE bytes that follow, so the layout is empty (C05; `Cfg.tla` decides
+/// what is dead from the code bytes alone).
+fn dead_storage_program(rng: &mut StdRng) -> Vec<u8> {
+    let mut items = Vec::new();
+    // live: storage-free hashing that leaves something slot-like on the stack
+    let c = rng.gen_range(0..30u8);
+    match rng.gen_range(0..4) {
+        0 => items.extend([Item::Op(0x33), p1(0), Item::Op(0x52), p1(c), p1(0x20), Item::Op(0x52), p1(0x40), p1(0), Item::Op(0x20)]),
+        1 => items.extend([p1(c), p1(0), Item::Op(0x52), p1(0x20), p1(0), Item::Op(0x20), p1(4), Item::Op(0x35), Item::Op(0x01)]),
+        2 => items.extend([p1(4), Item::Op(0x35)]),
+        _ => items.push(p1(c)),
+    }
+    // dead: storage accesses that use what the live part left behind, and constants of their own
+    let mut dead: Vec<Item> = Vec::new();
+    if rng.gen_bool(0.5) {
+        dead.push(Item::Label(7));
+    }
+    for _ in 0..rng.gen_range(1..4) {
+        match rng.gen_range(0..4) {
+            0 => dead.extend([p1(rng.gen_range(0..40)), Item::Op(0x54), Item::Op(0x50)]),
+            1 => dead.extend([p1(rng.gen_range(1..200)), p1(rng.gen_range(0..40)), Item::Op(0x55)]),
+            2 => dead.extend([Item::Op(0x80), Item::Op(0x54), Item::Op(0x50)]),
+            _ => dead.extend([p1(4), Item::Op(0x35), Item::Op(0x81), Item::Op(0x55)]),
+        }
+    }
+    dead.push(Item::Op(0x00));
+    let lbl = |label: usize, width: usize, high: u8, delta: i64| Item::PushLabel { label, width, high, delta };
+    match rng.gen_range(0..9) {
+        0 => items.push(Item::Op(*[0x00u8, 0xfe, 0xff, 0x0c, 0x21, 0xef, 0x5c].choose(rng).unwrap())),
+        1 => items.extend([p1(0), p1(0), Item::Op(*[0xf3u8, 0xfd].choose(rng).unwrap())]),
+        // a constant target that is no destination
+        2 => items.extend([Item::Push(vec![0x7f, 0xff]), Item::Op(0x56)]),
+        3 => items.extend([lbl(7, 2, 0, 1), Item::Op(0x56)]),
+        4 => items.extend([lbl(7, 5, 1, 0), Item::Op(0x56)]),
+        5 => items.extend([lbl(7, 9, 1, 0), Item::Op(0x56)]),
+        6 => {
+            // jump over the dead part
+            items.extend([lbl(8, 2, 0, 0), Item::Op(0x56)]);
+            items.extend(dead.clone());
+            items.extend([Item::Label(8), Item::Op(0x00)]);
+            return assemble(&items);
+        }
+        7 => {
+            // a conditional jump to a bad target: the fall-through stops
+            items.extend([p1(1), lbl(7, 2, 0, 1), Item::Op(0x57), Item::Op(0x00)]);
+        }
+        _ => {
+            // the dead part sits in the data of a trailing PUSH32 that the end of the code cuts short; the live part
+            // jumps at the 0x5b inside it
+            items.extend([lbl(9, 2, 0, 0), Item::Op(0x56), Item::Op(0x00)]);
+            let mut code = assemble(&items);
+            // where label 9 would be: right after the PUSH32 byte
+            let at = code.len() + 1;
+            let w = code.len();
+            // patch the PUSH2 immediate (the last PUSH2 before the JUMP)
+            code[w - 4] = (at >> 8) as u8;
+            code[w - 3] = (at & 0xff) as u8;
+            code.push(0x7f);
+            code.extend([0x5b, 0x60, rng.gen_range(0..40), 0x54, 0x50, 0x60, 0x01, 0x60, rng.gen_range(0..40), 0x55, 0x00]);
+            return code;
+        }
+    }
+    items.extend(dead);
+    assemble(&items)
+}
+
 /// Programs whose accesses use literal keys of every magnitude (C06).
 fn literal_key_program(rng: &mut StdRng) -> Vec<u8> {
+    if rng.gen_bool(0.25) {
+        return shared_accessor_program(rng);
+    }
     let mut items = Vec::new();
     let n = rng.gen_range(1..5);
     let fork = rng.gen_bool(0.4);
@@ -719,13 +835,14 @@ pub fn run(o: &Opts) -> R<()> {
         }
     }
     for i in 0..n_other {
-        let (fam, code): (&str, Vec<u8>) = match i % 6 {
+        let (fam, code): (&str, Vec<u8>) = match i % 7 {
+            6 => ("dead-storage", dead_storage_program(&mut rng)),
             0 => ("mask-shift", mask_shift_program(&mut rng)),
             1 => ("lookalike-storage-free", lookalike_program(&mut rng, false)),
             2 => ("lookalike-as-value", lookalike_program(&mut rng, true)),
             3 => ("literal-keys", literal_key_program(&mut rng)),
             4 => ("control-flow", progen::any(&mut rng).code),
-            _ => {
+            5 | _ => {
                 if real.is_empty() {
                     ("mask-shift", mask_shift_program(&mut rng))
                 } else {
